@@ -1,6 +1,7 @@
 """C05  Any input terminates in bounded time and memory; the interpreter survives.  Engine rsim in the sandbox pool
 (DESIGN.md 4, C05): hostile inputs x call sequences, deterministic step budget, resident-growth budget, RLIMIT_AS cap,
 death-by-signal detection, wall-clock backstop."""
+import json
 import os
 import struct
 
@@ -74,6 +75,15 @@ def gen_case(rng: Rng, i: int, tier: str):
                         m["content"]["len"] = 400
                 base = {"ref": {"members": c["members"], "layout": c["layout"]}}
                 break
+    if r2.chance(0.012):
+        # a decompression bomb that lies: a few KiB of packed zeros that expand to 160 MiB, in a header that declares 1000
+        # bytes (or 1 MiB) of output.  Whatever py7zr does with it, it must not materialise what it was not asked for.
+        base = {"bomb": {"chain": r2.pick([[{"id": "ZSTD"}], [{"id": "X86"}, {"id": "ZSTD"}], [{"id": "DEFLATE"}], [{"id": "ARM"}, {"id": "DEFLATE"}], [{"id": "BZIP2"}],
+                                           [{"id": "PPC"}, {"id": "BZIP2"}], [{"id": "LZMA2"}], [{"id": "LZMA"}], [{"id": "X86"}, {"id": "LZMA"}], [{"id": "DELTA"}, {"id": "LZMA2"}]]),
+                         "mib": 160, "declare": r2.pick([1000, 1000, 1 << 20])}}
+        kind = "bomb"
+        seq = [{"op": op} for op in r2.pick([["getnames", "extractall_f"], ["testzip"], ["extract", "reset", "testzip"], ["list", "test", "extractall_f", "reset", "extractall_f"]])]
+        return {"base": base, "kind": kind, "mseed": r.randrange(1 << 30), "seq": seq, "open": r.pick(["stream", "path"]), "chunk": r.pick([4096, 128000000])}
     if r2.chance(0.15):
         # directed: declared quantities (sizes, positions, counts) far beyond the input, every reading call once
         kind = "sizes"
@@ -92,7 +102,23 @@ def _base_chains(case):
     return []
 
 
+_BOMBS = {}
+
+
+def _bomb_image(spec):
+    key = json.dumps(spec["chain"], sort_keys=True) + str(spec["mib"])
+    if key not in _BOMBS:
+        _BOMBS.clear()  # one at a time: the images are small, the cache only saves recompression within a run of equal specs
+        data = bytes(spec["mib"] << 20)
+        members = [{"name": "zeros.bin", "kind": "file", "data": data, "mtime": None, "ctime": None, "atime": None, "attrs": None}]
+        _BOMBS[key] = W.build(members, {"folders": [{"members": [0], "chain": spec["chain"]}], "crc": "substream", "header": "raw"})
+        del data, members
+    return _BOMBS[key]
+
+
 def _base_image(case):
+    if "bomb" in case["base"]:
+        return _bomb_image(case["base"]["bomb"]), None, None
     if "fixture" in case["base"]:
         fx = case["base"]["fixture"]
         with open(os.path.join(REPO, "tests", "data", fx), "rb") as f:
@@ -126,6 +152,16 @@ def make_input(case):
         toks, desc = M.mutate(toks, r)
         raw = M.serialise(toks)
         data = W.reseal(img, raw, keep_upto=32 + (a.data_end or 0) if a.header_kind == "encoded" else None)
+        entered = True
+    elif kind == "bomb" and a is not None and a.header_bytes:
+        toks = M.tokenize(a.header_bytes)
+        lie = case["base"]["bomb"]["declare"]
+        for t in toks:
+            if t.kind == "num" and t.label in ("unpacksize", "substreamsize"):
+                t.val = lie
+        declared = lie
+        desc = ["%s expanding to %d MiB, every unpack size declared as %d" % ("+".join(f["id"] for f in case["base"]["bomb"]["chain"]), case["base"]["bomb"]["mib"], lie)]
+        data = W.reseal(img, M.serialise(toks))
         entered = True
     elif kind == "sizes" and a is not None and a.header_bytes:
         toks = M.tokenize(a.header_bytes)
@@ -207,16 +243,28 @@ def run_case(case):
     fs.add(rsess.READ_PATH, data)
     log = []
     prev = []
+    # peak resident growth allowed per call: 512 MiB in general; for the lying bomb (1000 bytes / 1 MiB declared, dictionaries of
+    # at most 8 MiB) everything beyond 96 MiB can only be output nobody asked for
+    mem_limit_kb = (96 << 10) if case["kind"] == "bomb" else (512 << 10)
     with Seams(fs=fs, memlimit=case["chunk"], inline_threads=True):
         z = None
 
         def guarded(name, fn):
             res["evals"] += 1
             peak0 = _vm_peak_kb()
+            rss0 = _reset_hwm_kb()
             try:
                 with StepCounter(budget, mem_budget_bytes=512 << 20) as sc:
                     try:
-                        out = fn()
+                        try:
+                            out = fn()
+                        finally:
+                            # transient peaks inside one C call are invisible to the sampled RSS: the kernel's high-water
+                            # mark, reset before the call, is not
+                            grown_kb = _hwm_kb() - rss0 if rss0 else 0
+                            res["extra"]["max_peak_rss_growth_kib"] = max(res["extra"].get("max_peak_rss_growth_kib", 0), grown_kb)
+                            if grown_kb > mem_limit_kb:
+                                raise MemBudgetExceeded(sc.steps)
                         log.append((name, "ok"))
                         return True, out
                     except MemoryError as e:
@@ -244,8 +292,8 @@ def run_case(case):
                 return None, None
             except MemBudgetExceeded:
                 dm = declared_codec_memory(data, pw)
-                viol("memory_blowup", name, "%s after %r: resident memory grew by more than 512 MiB on a %d-byte input (%s; largest coder memory declared: %d)" % (
-                    name, prev, len(data), "; ".join(desc), dm), codec_memory_declared=dm >= (1 << 30))
+                viol("memory_blowup", name, "%s after %r: resident memory grew by more than %d MiB on a %d-byte input (%s; largest coder memory declared: %d)" % (
+                    name, prev, mem_limit_kb >> 10, len(data), "; ".join(desc), dm), codec_memory_declared=dm >= (1 << 30))
                 log.append((name, "MEM"))
                 return None, None
 
@@ -302,6 +350,31 @@ def run_case(case):
     res["sample"] = {"base": case["base"].get("fixture", "generated archive"), "kind": case["kind"], "mutations": desc, "input_bytes": len(data),
                      "sequence": ["open"] + kinds, "outcomes": [l[1] for l in log]}
     return res
+
+
+def _status_kb(field):
+    try:
+        with open("/proc/self/status") as f:
+            for line in f:
+                if line.startswith(field):
+                    return int(line.split()[1])
+    except OSError:
+        pass
+    return 0
+
+
+def _reset_hwm_kb():
+    """Reset the kernel's peak-RSS high-water mark of this process and return the current RSS in KiB (0 if unsupported)."""
+    try:
+        with open("/proc/self/clear_refs", "w") as f:
+            f.write("5")
+    except OSError:
+        return 0
+    return _status_kb("VmRSS:")
+
+
+def _hwm_kb():
+    return _status_kb("VmHWM:")
 
 
 def _vm_peak_kb():
